@@ -156,7 +156,12 @@ func c05Case(c *Ctx) *Result {
 			// would be completed by whatever bytes follow on the same
 			// connection, i.e. it would become the genuine handshake with
 			// different padding, which is outside this property. Nothing
-			// more is sent on a connection after a prefix probe.
+			// more is sent on a connection after a prefix probe; the
+			// prober hangs up (the stream ends inside the segment) or
+			// stays connected.
+			if r.Intn(3) != 0 {
+				cur.Close()
+			}
 			cur = nil
 		}
 		if cur != nil && i%5 == 4 && r.Intn(2) == 0 {
